@@ -149,5 +149,5 @@ func TestC04(t *testing.T) {
 		c04Part.EvalCase(s, c04Case{Poly: polySpec{Kind: "dense", Seed: uint64(1000*hx.Seed() + hx.Shard())}, Point: pt,
 			Label: "b", Results: []string{"plus1", "neighbour_lo", "neighbour_hi", "zero"}, Seed: uint64(hx.Shard())})
 	}
-	c04Part.Run(s, hx.PerShard(hx.Pick(160, 3200)))
+	c04Part.Run(s, hx.PerShard(hx.Pick(480, 6400)))
 }
